@@ -111,6 +111,13 @@ def ele_faults(seg, e, sub_of=None):
                 break
         if v is not None and dt in ('ID', 'AN'):
             out.append(('outside-code-list', v, '7', is_qualifier(seg, e)))
+    if e.ext and not e.codes:
+        members = set(G.extcodes().get(e.ext, []))
+        for cand in ('Z', 'Q', 'X9', 'ZZ', 'QQ', 'ZZZ', 'QQQ', 'ZZZZ', 'ZZZZZ', 'ZZZZZZ', 'ZZZZZZZ', 'ZZZZZZZZZ'):
+            if mn <= len(cand) <= mx and cand not in members and members and dt in ('ID', 'AN'):
+                # also run with every OTHER external code set switched off (exclude_external_codes): this one stays on
+                out.append(('outside-external-set', cand, '7', is_qualifier(seg, e)))
+                break
     if e.usage == 'R':
         struct = is_qualifier(seg, e)
         first_of_S_comp = sub_of is not None and e.seq == 1 and sub_of.usage != 'R'
@@ -168,10 +175,10 @@ def fix_counts(d):
 
 
 # ----- oracle ----------------------------------------------------------------------------------------
-def observe(d, text=None):
+def observe(d, text=None, exclude=None):
     from mc import pipe
     pipe.stub_clock()
-    return pipe.run(text if text is not None else d.text(eol='\n'), sinks=('ack',))
+    return pipe.run(text if text is not None else d.text(eol='\n'), sinks=('ack',), exclude=exclude)
 
 
 def judge(o, d, exp, structural, tag, f):
@@ -316,6 +323,8 @@ def inject_ele(entry, gseg, seq, subseq, kind, value):
             raise gen.Ungeneratable('segment would be empty')
     st, pos = set_pos(d, i)
     exp = {'level': 'ele', 'code': code, 'seg_id': gseg.id, 'pos': pos, 'ele': seq, 'sub': subseq, 'value': val if kind not in ('missing-required', 'not-used-filled') else None}
+    if kind == 'outside-external-set':
+        exp['ext'] = e.ext
     return d, exp, structural
 
 
@@ -495,6 +504,13 @@ def run_case(case):
         return None, 'ungeneratable: %s' % str(e).split(' at ')[0][:40]
     o = observe(d)
     res = _judge_all(o, d, exp, structural, tag, entry)
+    if not res and tag == 'outside-external-set':
+        # the same fault with all other external code sets excluded by option: the verdict on this element must not change
+        others = sorted(k for k in G.extcodes())
+        mine = exp.get('ext')
+        others = [k for k in others if k != mine]
+        o2 = observe(d, exclude=','.join(others))
+        res = [(k.replace('C03|outside-external-set|', 'C03|outside-external-set|other sets excluded|'), m + ' [exclude_external_codes=%s]' % ','.join(others)) for k, m in _judge_all(o2, d, exp, structural, tag, entry)]
     if res:
         # precondition of the property: the carrier itself must be accepted (else it is a C02 matter)
         clean = observe(d, d.base_text) if getattr(d, 'base_text', None) else None
@@ -646,7 +662,7 @@ def run(R):
             shards.append((e, ch))
     R.pmap(work, shards)
     R.bounds = {'maps': len(ents), 'injections': total,
-                'catalogue': ['too-long', 'too-long-punctuated (AN)', 'too-long-signed (R)', 'too-short', 'wrong-class', 'impossible-date (month)', 'impossible-date-day', 'impossible-time (hour)', 'impossible-time-minute', 'impossible-time-second', 'outside-code-list', 'missing-required',
+                'catalogue': ['too-long', 'too-long-punctuated (AN)', 'too-long-signed (R)', 'too-short', 'wrong-class', 'impossible-date (month)', 'impossible-date-day', 'impossible-time (hour)', 'impossible-time-minute', 'impossible-time-second', 'outside-code-list', 'outside-external-set (also with all other external sets excluded by option)', 'missing-required',
                               'not-used-filled', 'too-many-elements', 'syntax:<note>', 'unknown-id', 'unknown-id-malformed', 'missing-required-segment', 'beyond-max-use',
                               'not-used-segment', 'beyond-repeat (loops)', 'missing-required-loop'],
                 'targets': 'every node x every applicable kind' if R.thorough else 'one node per definition signature per map x every applicable kind'}
